@@ -544,10 +544,30 @@ def cleanupLoc (re mg : Bool) (next : Nat) (t : T) : Loc :=
   let r := cleanupT re mg t
   okLoc r.1 (if r.2 then .reset else .keep) next
 
-/-- `node.copy_tree_structure()` (default: the copy keeps the original's parent pointer) or
-`node.copy_tree_structure(new_parent=None)` -/
-def copyLoc (keepParent : Bool) (next : Nat) (t : T) : Loc :=
-  let cp := copyT (if keepParent then t.info.par else none) none t next
+/-- the `new_parent` argument of `copy_tree_structure`: the sentinel `False` (default: the copy keeps the
+original's parent pointer), `None` (a parentless copy), or a `Loop` given by its uid (`bound` = first uid
+not used by that loop and its children, the harness creates it right before the call).  The code tests
+`new_parent is False`: a childless — hence falsy — `Loop` is a parent like any other. -/
+inductive CopyPar where
+  | keep
+  | none
+  | explicit (uid bound : Nat)
+  deriving Repr, DecidableEq
+
+/-- the parent the copy of `t` is asked to have -/
+def CopyPar.request (np : CopyPar) (t : T) : Option Nat :=
+  match np with
+  | .keep => t.info.par
+  | .none => Option.none
+  | .explicit u _ => some u
+
+/-- `node.copy_tree_structure(new_parent=…)` -/
+def copyLoc (np : CopyPar) (next : Nat) (t : T) : Loc :=
+  let par : Option Nat := np.request t
+  let start := match np with
+    | .explicit _ b => max next b
+    | _ => next
+  let cp := copyT par Option.none t start
   { node := t, upd := .keep, next := cp.2, out := some cp.1 }
 
 /-- `node.add_measurements(ms)`: reads `body_duration` (which fills the node's cache) and appends
@@ -591,7 +611,7 @@ inductive Op where
   | cleanup (p : Path) (re mg : Bool)
   | reverse (p : Path)
   | roll (p : Path) (minq quantum : Int) (sr : Rat)
-  | copy (p : Path) (keepParent : Bool)
+  | copy (p : Path) (newParent : CopyPar)
   | addMeas (p : Path) (ms : List Meas)
   | dropMeas (p : Path)
 
@@ -809,7 +829,9 @@ def op? : Sexp → Option Op
   | .list [.atom "cleanup", p, re, mg] => do some (.cleanup (← path? p) (← bool? re) (← bool? mg))
   | .list [.atom "reverse", p] => do some (.reverse (← path? p))
   | .list [.atom "roll", p, mq, q, sr] => do some (.roll (← path? p) (← int? mq) (← int? q) (← rat? sr))
-  | .list [.atom "copy", p, kp] => do some (.copy (← path? p) (← bool? kp))
+  | .list [.atom "copy", p, .atom "true"] => do some (.copy (← path? p) .keep)
+  | .list [.atom "copy", p, .atom "false"] => do some (.copy (← path? p) .none)
+  | .list [.atom "copy", p, .list [.atom "par", u, b]] => do some (.copy (← path? p) (.explicit (← nat? u) (← nat? b)))
   | .list [.atom "addmeas", p, .list ms] => do some (.addMeas (← path? p) (← ms.mapM meas?))
   | .list [.atom "dropmeas", p] => do some (.dropMeas (← path? p))
   | _ => none
